@@ -61,7 +61,7 @@ def repo_documents():
 TOKENS = ['{', '}', '[', ']', '(', ')', ':', ',', '.', "'", '"', "'''", '`', '//', '/*', '*/', '\n', ' ', '\t', '#', '<', '>', '-', '<>',
           'Table', 'Ref', 'Enum', 'Note', 'note:', 'indexes', 'pk', 'null', 'not null', 'default:', 'ref:', 'as', 'Project',
           'TableGroup', 'unique', 'increment', 'headercolor:', 'x', 'a.b', 'a.b.c', '"a.b.c"', '1', '1.5', '#fff', '\\', '{}', '@', ';', '﻿',
-          "'  '", '" "', "'''\n  \n'''", '"q\\n"', 'é', '\r', '\x0c']
+          "'  '", '" "', "'''\n  \n'''", '"q\\n"', 'é', '\r', '\x0c', '1e5', '2E-3', '+1', '-1', '.5', '5.', '0x1F', '1_000', '""', "''", '``']
 
 
 def mutate(r, text):
@@ -69,6 +69,11 @@ def mutate(r, text):
     if not text:
         return r.choice(TOKENS)
     i = r.randrange(len(text) + 1)
+    if k < 0.08:
+        m = list(re.finditer(r'(?i)default:\s*', text))
+        if m:
+            j = r.choice(m).end()
+            return text[:j] + r.choice(TOKENS) + text[j:]
     if k < 0.3:
         return text[:i] + r.choice(TOKENS) + text[i:]
     if k < 0.5:
@@ -473,9 +478,9 @@ def run(v, tier, st, pr, pid):
         for text, o in zip(cases, outs):
             for stage, exc, site in o:
                 hist[exc] = hist.get(exc, 0) + 1
-                if exc.startswith(('pyparsing.', OWN)) or exc == 'ok':
+                if exc == 'ok':
                     continue
-                if stage == 'parse' and exc == 'builtins.SyntaxError':
+                if stage == 'parse' and (exc.startswith(('pyparsing.', OWN)) or exc == 'builtins.SyntaxError'):
                     continue
                 kid = next((k for k, f in kfs.items() if f['signature'].get('class') == exc and f['signature'].get('function') == site
                             and f['signature'].get('stage', stage) == stage), None)
@@ -608,13 +613,40 @@ def c14_job(job):
     d = docgen.diff(ec, c1)
     if d:
         fails.append(('comment not stored on the element it belongs to', d))
+    # every renderer that emits the element emits its comment with it, every line prefixed
+    elems = list(d1.tables) + list(d1.enums) + list(d1.refs) + list(d1.table_groups) + ([d1.project] if d1.project else []) \
+        + [c for t in d1.tables for c in t.columns] + [i for t in d1.tables for i in t.indexes] + [i for e in d1.enums for i in e.items]
+    for o in elems:
+        if not getattr(o, 'comment', None):
+            continue
+        for kind, prefix in (('dbml', '// '), ('sql', '-- ')):
+            if kind == 'sql' and not hasattr(type(o), 'sql'):
+                continue
+            try:
+                text = getattr(o, kind)
+            except Exception:   # noqa
+                continue      # crashes belong to C08
+            if getattr(o, 'inline', False) and kind == 'dbml':
+                continue      # an inline reference is rendered inside its column's settings, without comment
+            want = ''.join(prefix + l + '\n' for l in o.comment.split('\n'))
+            if want not in text:
+                fails.append(('%s of a %s does not carry its comment as comment lines' % (kind, type(o).__name__), repr(text[:200])))
     return fails
+
+
+def parse_route(text, allow, route):
+    it = pyscript.Interp([])
+    try:
+        return 'ok', it.parse(route, allow, 0, 1, pyscript.as_read(text) if route in (2, 3) else text, text)
+    except Exception as e:   # noqa
+        return 'raise', pyscript.exc_name(e)
 
 
 def c15_job(job):
     text, exp, has_props, text2, exp2 = job
     fails = []
-    k, db = parse_impl(text, True)
+    route = (len(text) + len(text2)) % 5          # every way of supplying the source that takes the option
+    k, db = parse_route(text, True, route) if '\r' not in text else parse_impl(text, True)
     if k != 'ok':
         return [('document with properties rejected although the option is on', db, text)]
     d = docgen.diff(exp, docgen.content(db))
